@@ -70,11 +70,18 @@ def judge(f, cols, lines):
     if any(len(l) == 0 for l in lc):
         return "an empty line was produced"
     flat = []
+    refbase = [x for x in ref if wcwidth(x[0]) > 0]
+    nb = 0
     for i, l in enumerate(lc):
         l = list(l)
         if i + 1 < len(lc) and l and l[-1][0] == " " and lc[i + 1] and wcwidth(lc[i + 1][0][0]) == 2 \
                 and l[-1][1] == lc[i + 1][0][1] and width(l[:-1]) == cols - 1:
-            l = l[:-1]          # the one permitted addition: padding before a double-width character, formatted like it
+            # the one permitted addition: padding before a double-width character, formatted like it - unless the value itself
+            # has that blank at this position (a real blank that happens to end the line)
+            p = nb + sum(1 for x in l if wcwidth(x[0]) > 0) - 1
+            if not (p < len(refbase) and refbase[p] == l[-1]):
+                l = l[:-1]
+        nb += sum(1 for x in l if wcwidth(x[0]) > 0)
         flat += l
     if flat != ref:
         base = lambda cs: [x for x in cs if wcwidth(x[0]) > 0]
@@ -161,9 +168,32 @@ def bounded(check, tier):
     s.done()
 
 
+def derived(check, tier, seed):
+    from bounded.derived import derived_values
+    from cwcwidth import wcswidth as _wcs
+    n = 5000 if tier == "thorough" else 600
+    s = Suite(check, "C11.derived", f"{n} values at the end of chains of <= 4 public operations, wrapped at 2, 3 and 5 columns: the statement's oracle",
+              bound="chains <= 4 operations", exhaustive=False)
+    for k, v in enumerate(derived_values(seed + 5, n)):
+        if _wcs(v.s) < 0:
+            continue
+        for cols in (2, 3, 5):
+            s.case(("d", k, cols), sample=repr(v) if k < 2 else None)
+            try:
+                lines = list(v.width_aware_splitlines(cols))
+            except Exception as e:      # noqa: BLE001
+                s.fail("C11.width_aware_splitlines", dict(value=repr(v), runs=str(v.chunks), cols=cols, kind="derived"), f"raised {type(e).__name__}: {e}")
+                continue
+            d = judge(v, cols, lines)
+            if d:
+                s.fail("C11.width_aware_splitlines", dict(value=repr(v), runs=str(v.chunks), cols=cols, kind="derived"), d)
+    s.done()
+
+
 def run(check, tier, seed):
     import contracts.splitter as SP
     from pyvc.verify import verify
     for c in SP.GENERATOR_CONTRACTS:
         verify(c, tier, check)
     bounded(check, tier)
+    derived(check, tier, seed)
